@@ -103,3 +103,39 @@ theorem getElem?_swap (r : List Group) (i j : Nat) (hi : i < r.length) (hj : j <
       simp [*]
 
 end HdVerif.SRReport
+
+namespace HdVerif.SRReport
+open HdVerif
+
+theorem filter_map_fst {α} (l : List α) (f : α → String × String) (q : α → Bool) (n : String) :
+    ((l.filter q).map f).filter (fun x => x.1 == n) = (l.filter (fun x => (f x).1 == n && q x)).map f := by
+  induction l with
+  | nil => rfl
+  | cons a t ih =>
+    simp only [List.filter_cons]
+    by_cases hq : q a = true
+    · by_cases hn : ((f a).1 == n) = true
+      · simp [hq, hn, ih, List.filter_cons]
+      · simp [hq, hn, ih, List.filter_cons]
+    · simp [hq, ih]
+
+/-- the named accessor is the unnamed one filtered by name (any group, any name) -/
+theorem measurementsNamed_eq (g : Group) (n : String) :
+    measurementsNamed g n = (measurementsOf g).filter (fun x => x.1 == n) := by
+  unfold measurementsNamed measurementsOf
+  rw [filter_map_fst]
+  congr 1
+  apply List.filter_congr
+  intro it _
+  simp [Bool.and_assoc]
+
+theorem evaluationsNamed_eq (g : Group) (n : String) :
+    evaluationsNamed g n = (evaluationsOf g).filter (fun x => x.1 == n) := by
+  unfold evaluationsNamed evaluationsOf
+  rw [filter_map_fst]
+  congr 1
+  apply List.filter_congr
+  intro it _
+  simp [Bool.and_assoc]
+
+end HdVerif.SRReport
